@@ -142,6 +142,11 @@ fn play(args: &[String]) -> i32 {
             denull(&mut ev);
             events += 1;
             writeln!(out, "{}", ev).unwrap();
+            // a call that hung or panicked is rejected by the trace specification at this event; the instance behind it is
+            // wedged, so the rest of the run would only collect watchdog time-outs
+            if ev["res"] == json!("timeout") || ev["res"] == json!("panic") {
+                break;
+            }
         }
         calls += p.inst.calls;
         p.inst.close();
